@@ -258,7 +258,7 @@ def case_update(R, res, lines, expect):
     return True
 
 
-def case_plain(R, res):
+def case_plain(R, res, lines=None, expect=None):
     """float / dict / nested list conversion: decision logic"""
     kt = impl()
     from keras_tuner.engine import tuner_utils, objective as om
@@ -282,6 +282,30 @@ def case_plain(R, res):
         if got["score"] == got["score"]:
             raise Violation("C18", f"executions {ys} (one objective is NaN) are converted to objective {got['score']}: the mean over ALL executions is NaN",
                             {"tag": "nan-execution-dropped"})
+    # a History whose objective diverges to NaN after some good epochs: the best epoch is looked for among the epochs before and
+    # after it - a NaN is never better than a number (only a NaN at the very first epoch stays: nothing compares better than it)
+    import keras
+    L = R.randint(2, 7)
+    curve = [float(R.choice([0, 1, 2, 3, 4, 5])) for _ in range(L)]
+    for j_ in range(1, L):
+        if R.random() < 0.35:
+            curve[j_] = float("nan")
+    h = keras.callbacks.History()
+    h.history = {"score": list(curve), "loss": [0.5] * L}
+    sign = 1 if obj.direction == "min" else -1
+    finite = [(sign * v, i_) for i_, v in enumerate(curve) if v == v]
+    bv = min(x for x, _ in finite)
+    want_ep = next(i_ for x, i_ in finite if x == bv)
+    got = tuner_utils.convert_to_metrics_dict(h, obj)
+    step = tuner_utils.get_best_step(h, obj)
+    if not (got["score"] == curve[want_ep]) or step != want_ep:
+        raise Violation("C18", f"History with objective {curve} ({obj.direction}): converted to objective {got['score']} at best step {step}, the best epoch is "
+                               f"{want_ep} with {curve[want_ep]} (a NaN epoch is never the best one)", {"tag": "nan-epoch"})
+    if lines is not None:
+        lines.append(dict(suite="metrics", op="nanconv", minimize=obj.direction == "min", curve=[None if v != v else int(v) for v in curve]))
+        expect.append(f"epoch={step} value={'nan' if got['score'] != got['score'] else int(got['score'])}")
+    if any(v != v for v in curve):
+        res.hist["history-with-nan-epoch"] += 1
     res.hist["plain"] += 1
 
 
@@ -292,7 +316,7 @@ def run_case(kind, RR, res, lines, expect):
         return case_conv(RR, res, lines, expect)
     if kind == 3:
         return case_update(RR, res, lines, expect)
-    return case_plain(RR, res) or False
+    return case_plain(RR, res, lines, expect) or False
 
 
 def run(seed, tier, n=None):
